@@ -18,10 +18,14 @@ def run(rep):
     quick = rep.tier == "quick"
     parts = os.environ.get("C17_PARTS", "all")          # development switch: "rw" = only the read/write-path family (partial run)
     # 1. model checking: the array store as a state machine (invariants), then the laws on every enumerated case
-    if parts == "all":
-        sm = tlc.run(rep.pid, "C17", SM_CFG, env={"TIER": rep.tier}, timeout=1800, tag="sm", heap="4g")
-        rep.add_tlc("C17.ArrayStateMachine", sm)
-    res = tlc.run(rep.pid, "C17", ENUM_CFG, env={"TIER": rep.tier, "C17_PARTS": parts}, timeout=2400, tag="enum", heap="6g")
+    # (the two runs are independent: the state machine runs beside the enumeration, which is one thread for most of its time)
+    from concurrent.futures import ThreadPoolExecutor
+    with ThreadPoolExecutor(max_workers=1) as pool:
+        smf = pool.submit(tlc.run, rep.pid, "C17", SM_CFG, env={"TIER": rep.tier}, timeout=1800, tag="sm", heap="4g",
+                          workers=8 if quick else None) if parts == "all" else None
+        res = tlc.run(rep.pid, "C17", ENUM_CFG, env={"TIER": rep.tier, "C17_PARTS": parts}, timeout=2400, tag="enum", heap="6g")
+        if smf is not None:
+            rep.add_tlc("C17.ArrayStateMachine", smf.result())
     rep.add_tlc("C17.Enum+Laws", res)
     seen, calls, scripts = set(), [], []
     import hashlib
@@ -55,6 +59,7 @@ def run(rep):
         allc.append(d)
     hist = gen_histories(rng, 500 if quick else 8000) if parts == "all" else []
     tah = gen_ta_histories(rng, 300 if quick else 3000) if parts == "all" else []
+    tah += gen_ta_histories(rng, 100 if quick else 1000, render=True) if parts in ("all", "rwh") else []
     for h in hist + tah:
         h["id"] = len(allc)
         allc.append(h)
@@ -66,10 +71,10 @@ def run(rep):
                                 "before / after the first read) x read path before (none, join, toString, copied by set) x writing view x "
                                 "write method (index, set from array, set from typed array) x read path after (TLC-enumerated, RWLaw)",
                        "cases": nrw, "complete": True})
-    rep.spaces.append({"space": "seeded random histories (arrays: <= 20 calls on three shared arrays; typed arrays: <= 20 events on two buffers)",
+    rep.spaces.append({"space": "seeded random histories (arrays: <= 20 calls on three shared arrays; typed arrays: <= 20 events on two buffers, a quarter of them with join / toString between the writes)",
                        "cases": len(hist) + len(tah), "complete": False})
     # 2./3. replay into the engine and judge in TLC, batch by batch (bounded memory)
-    BATCH = 60000 if quick else 30000
+    BATCH = 100000 if quick else 30000          # quick: one batch (every batch costs 32 JVM starts)
     rep.notes["engine_wall_s"] = 0.0
     rep.notes["judge_wall_s"] = [0.0, 0.0]
     rep.evaluations = 0
@@ -343,17 +348,25 @@ def taev(op, kind="", vi=0, i=0, x=None, a=None, src=None):
     return {"op": op, "kind": kind, "vi": vi, "i": i, "x": x or W_undef(), "a": a or [], "src": src or NOSRC}
 
 
-def gen_ta_histories(rng, n):
+SMALLKINDS = [k for k in TAKINDS if TASIZE[k] <= 2]     # every element is an integer below 2^16: its text is inside the specified fragment
+OPS = ["view", "view", "newlen", "newarr", "write", "write", "write", "write", "set", "set", "subarray", "len"]
+JOINSEPS = [[], [], [W_str("-")], [W_undef()], [W_str("")]]
+
+
+def gen_ta_histories(rng, n, render=False):
+    """render: the views are also read by join / toString at any point of the history (kinds of at most 16 bits)"""
     out = []
+    kinds = SMALLKINDS if render else TAKINDS
+    ops = OPS + ["join", "join", "join", "tostr", "tostr"] if render else OPS
     for _ in range(n):
         sizes = [rng.choice([8, 16, 24]), rng.choice([4, 8, 16])]
         evs = [taev("newbuf", i=sizes[0]), taev("newbuf", i=sizes[1])]
         nviews, nsub = 0, 0
         for _ in range(rng.randint(3, 18)):
-            op = rng.choice(["view", "view", "newlen", "newarr", "write", "write", "write", "write", "set", "set", "subarray", "len"])
+            op = rng.choice(ops)
             if nviews == 0 and op not in ("view", "newlen", "newarr"):
                 op = "view"
-            kd = rng.choice(TAKINDS)
+            kd = rng.choice(kinds)
             sz = TASIZE[kd]
             vi = rng.randint(1, max(1, nviews))
             if op == "view":
@@ -387,6 +400,10 @@ def gen_ta_histories(rng, n):
                 evs.append(taev("subarray", vi=vi, a=a))
                 nviews += 1
                 nsub += 1
+            elif op == "join":
+                evs.append(taev("join", vi=vi, a=rng.choice(JOINSEPS)))
+            elif op == "tostr":
+                evs.append(taev("tostr", vi=vi))
             else:
                 evs.append(taev("len", vi=vi))
         out.append({"ty": "ta", "evs": evs})
